@@ -3,6 +3,7 @@ package checks
 import (
 	"fmt"
 	"reflect"
+	"runtime"
 	"strings"
 	"time"
 
@@ -197,6 +198,87 @@ func c09Run(c *engine.Ctx) {
 		{"IRIs[1]", func() ap.Item { return ap.IRIs{"https://example.com/1"} }},
 		{"*IRIs[1]", func() ap.Item { c := ap.IRIs{"https://example.com/1"}; return &c }},
 	}
+	// lists whose members are equal to each other (the same IRI or object twice, next to a different one): a list is equal to itself
+	// however its members relate to one another
+	type bareT = struct {
+		name string
+		mk   func() ap.Item
+	}
+	obj := func(id string) ap.Item { return &ap.Object{ID: ap.IRI(id), Type: ap.NoteType} }
+	bare = append(bare,
+		bareT{"ItemCollection[a,a]", func() ap.Item {
+			return ap.ItemCollection{ap.IRI("https://example.com/1"), ap.IRI("https://example.com/1")}
+		}},
+		bareT{"ItemCollection[a,a,b]", func() ap.Item {
+			return ap.ItemCollection{ap.IRI("https://example.com/1"), ap.IRI("https://example.com/1"), ap.IRI("https://example.com/2")}
+		}},
+		bareT{"ItemCollection[b,a,a]", func() ap.Item {
+			return ap.ItemCollection{ap.IRI("https://example.com/2"), ap.IRI("https://example.com/1"), ap.IRI("https://example.com/1")}
+		}},
+		bareT{"ItemCollection[obj a,obj a]", func() ap.Item { return ap.ItemCollection{obj("https://example.com/1"), obj("https://example.com/1")} }},
+		bareT{"ItemCollection[obj a,iri a,obj b]", func() ap.Item {
+			return ap.ItemCollection{obj("https://example.com/1"), ap.IRI("https://example.com/1"), obj("https://example.com/2")}
+		}},
+		bareT{"ItemCollection[a,a/]", func() ap.Item {
+			return ap.ItemCollection{ap.IRI("https://example.com/1"), ap.IRI("https://example.com/1/")}
+		}},
+		bareT{"ItemCollection[nil,nil,a]", func() ap.Item { return ap.ItemCollection{nil, nil, ap.IRI("https://example.com/1")} }},
+		bareT{"IRIs[a,a]", func() ap.Item { return ap.IRIs{"https://example.com/1", "https://example.com/1"} }},
+		bareT{"IRIs[a,a,b]", func() ap.Item {
+			return ap.IRIs{"https://example.com/1", "https://example.com/1", "https://example.com/2"}
+		}},
+		bareT{"IRIs[a,A]", func() ap.Item { return ap.IRIs{"https://example.com/a", "https://EXAMPLE.com/A"} }},
+	)
+	// ids that are not URLs: every sequence of at most 4 tokens over {a, #, ://, ?, /, :, %, é} as a bare IRI and as the id of an
+	// object - the comparison is reflexive, symmetric and does not panic whatever the separators and their order
+	{
+		tokens := []string{"a", "#", "://", "?", "/", ":", "%", "é"}
+		var ids []string
+		var gen func(cur string, n int)
+		gen = func(cur string, n int) {
+			if n > 0 {
+				ids = append(ids, cur)
+			}
+			if n == 4 {
+				return
+			}
+			for _, tk := range tokens {
+				gen(cur+tk, n+1)
+			}
+		}
+		gen("", 0)
+		for k := 0; k < len(ids); k += 64 {
+			lo, hi := k, k+64
+			if hi > len(ids) {
+				hi = len(ids)
+			}
+			c.Do("C09|reflexive|odd-ids", func() string {
+				return fmt.Sprintf("ItemsEqual(x, x), symmetry against the next id, for ids %q..%q (bare IRI, object id, one-member lists)", ids[lo], ids[hi-1])
+			}, func(t *engine.T) {
+				t.Distinct(true)
+				for j := lo; j < hi; j++ {
+					id, next := ids[j], ids[(j+1)%len(ids)]
+					t.Step(func() string { return fmt.Sprintf("id %q", id) })
+					forms := []func(string) ap.Item{
+						func(s string) ap.Item { return ap.IRI(s) },
+						func(s string) ap.Item { return &ap.Object{ID: ap.IRI(s), Type: ap.NoteType} },
+						func(s string) ap.Item { return ap.ItemCollection{ap.IRI(s)} },
+						func(s string) ap.Item { return ap.IRIs{ap.IRI(s)} },
+					}
+					for fi, f := range forms {
+						x, twin, y := f(id), f(id), f(next)
+						if !c09Eq(t, x, x) || !c09Eq(t, x, twin) || !c09Eq(t, twin, x) {
+							t.Fail(fmt.Sprintf("C09|reflexive|odd-ids|form%d|not-reflexive", fi), "ItemsEqual(x, x) = false for id %q (form %d)", id, fi)
+						}
+						if c09Eq(t, x, y) != c09Eq(t, y, x) {
+							t.Fail(fmt.Sprintf("C09|reflexive|odd-ids|form%d|not-symmetric", fi), "ItemsEqual is not symmetric on ids %q, %q (form %d)", id, next, fi)
+						}
+					}
+				}
+				t.AddEvals(int64(hi-lo)*4-1, int64(hi-lo)*4-1)
+			})
+		}
+	}
 	for _, n := range []int{8, 15, 16, 17, 18, 31, 32, 33, 63, 64, 65, 130} {
 		n := n
 		bare = append(bare, struct {
@@ -237,6 +319,73 @@ func c09Run(c *engine.Ctx) {
 			if !c09Eq(t, x, twin) || !c09Eq(t, twin, x) {
 				t.Fail(class+"|"+b.name+"|deep-equal-twin", "ItemsEqual(x, twin) = false for %s", b.name)
 			}
+		})
+	}
+
+	// ---- chains: a value nested in itself through every item property of its type (single item, or the only member of a list),
+	// compared with a twin built the same way. The comparison is true and its cost is proportional to the depth. The cost is
+	// measured in ALLOCATIONS (deterministic for a single goroutine, unlike time): a comparison that does the work of a level twice
+	// allocates 2^8 = 256 times more at depth 16 than at depth 8, a linear one twice as much; the bound is 8x. Only when the growth
+	// is in order is the chain of depth 130 compared (it would not return otherwise).
+	for i := range universe.Structs {
+		s := &universe.Structs[i]
+		if s.Name == "Link" {
+			continue
+		}
+		class := "C09|chain|" + s.Name
+		c.Do(class, func() string {
+			return fmt.Sprintf("ItemsEqual(chain, twin) for chains of 8, 16 and 130 %s values through each of its item properties", s.SpecificName())
+		}, func(t *engine.T) {
+			t.Distinct(true)
+			n := int64(0)
+			for _, f := range s.ItemFields() {
+				if f.Term == "id" || f.Term == "type" {
+					continue
+				}
+				f := f
+				mk := func(depth int) ap.Item {
+					var cur ap.Item = ap.IRI("https://example.com/leaf")
+					for d := 0; d < depth; d++ {
+						p := reflect.New(s.Type)
+						p.Elem().FieldByName("ID").Set(reflect.ValueOf(ap.IRI(fmt.Sprintf("https://example.com/chain/%d", d))))
+						p.Elem().FieldByName("Type").Set(reflect.ValueOf(ap.ActivityVocabularyType(s.SpecificName())))
+						fv := p.Elem().Field(f.Index)
+						if f.Kind == universe.KItems {
+							fv.Set(reflect.ValueOf(ap.ItemCollection{cur}))
+						} else {
+							fv.Set(reflect.ValueOf(cur))
+						}
+						cur = p.Interface().(ap.Item)
+					}
+					return cur
+				}
+				t.Step(func() string { return "chain through " + f.Term })
+				cost := func(depth int) (uint64, bool) {
+					x, twin := mk(depth), mk(depth)
+					var before, after runtime.MemStats
+					runtime.ReadMemStats(&before)
+					eq := c09Eq(t, x, twin) && c09Eq(t, twin, x)
+					runtime.ReadMemStats(&after)
+					return after.Mallocs - before.Mallocs, eq
+				}
+				a8, eq8 := cost(8)
+				a16, eq16 := cost(16)
+				n += 2
+				if !eq8 || !eq16 {
+					t.Fail(class+"|"+f.Term+"|unequal", "a chain of %s values through %s is not equal to its twin", s.SpecificName(), f.Term)
+				}
+				if a16 > 8*a8+2000 {
+					t.Fail(class+"|"+f.Term+"|super-linear", "comparing two chains of %s values through %s costs %d allocations at depth 8 and %d at depth 16 (x%d): the work of a level is done more than once, the cost doubles with every level (a chain of 40 needs 2^40 steps)",
+						s.SpecificName(), f.Term, a8, a16, a16/(a8+1))
+					continue
+				}
+				x, twin := mk(130), mk(130)
+				if !c09Eq(t, x, twin) || !c09Eq(t, twin, x) || !c09Eq(t, x, x) {
+					t.Fail(class+"|"+f.Term+"|unequal", "a chain of 130 %s values through %s is not equal to its twin", s.SpecificName(), f.Term)
+				}
+				n++
+			}
+			t.AddEvals(n-1, n-1)
 		})
 	}
 
@@ -302,6 +451,40 @@ func c09Run(c *engine.Ctx) {
 		{"query-value-slash", "https://example.com/o?dir=/in/", "https://example.com/o?dir=/in"},
 		{"userinfo-host", "https://a@example.com/o/1/", "https://a@example.org/o/1"},
 	}
+	// every pair of different printable ASCII characters (and DEL) that are not the two cases of one letter, as one byte of the path
+	// and - letters excepted - of a query value: the ids differ, the objects are never equal
+	c.Do("C09|id-differs|Object|byte-pairs", func() string {
+		return "objects whose ids differ in one byte of the path / of a query value, all pairs of printable ASCII characters"
+	}, func(t *engine.T) {
+		t.Distinct(true)
+		n := int64(0)
+		fold := func(ch byte) byte {
+			if ch >= 'A' && ch <= 'Z' {
+				return ch + 32
+			}
+			return ch
+		}
+		for a := byte(0x21); a <= 0x7f; a++ {
+			for b := byte(0x21); b <= 0x7f; b++ {
+				if fold(a) == fold(b) || strings.IndexByte("#?%/", a) >= 0 || strings.IndexByte("#?%/", b) >= 0 {
+					continue
+				}
+				pairs := [][2]string{{"https://example.com/u/" + string(a) + "x", "https://example.com/u/" + string(b) + "x"}}
+				letter := func(ch byte) bool { return fold(ch) >= 'a' && fold(ch) <= 'z' }
+				if !letter(a) && !letter(b) && strings.IndexByte("&=+;", a) < 0 && strings.IndexByte("&=+;", b) < 0 {
+					pairs = append(pairs, [2]string{"https://example.com/q?k=" + string(a), "https://example.com/q?k=" + string(b)})
+				}
+				for _, p := range pairs {
+					x, y := &ap.Object{ID: ap.IRI(p[0]), Type: ap.NoteType}, &ap.Object{ID: ap.IRI(p[1]), Type: ap.NoteType}
+					if c09Eq(t, x, y) || c09Eq(t, y, x) {
+						t.Fail("C09|id-differs|Object|byte-pairs|equal", "objects with ids %q and %q compare equal", p[0], p[1])
+					}
+					n++
+				}
+			}
+		}
+		t.AddEvals(n-1, n-1)
+	})
 	for i := range universe.Structs {
 		s := &universe.Structs[i]
 		if s.Name == "Link" {
